@@ -43,6 +43,10 @@ def mk_tables():
         "mc_upper": dict(elems=mc_ue, pseudoRaw=mc_up, grain="GRAIN", surf="G", repl=mc_repl),
         # a user configuration with ONE of the two lists empty: nothing but these six symbols is known, labels included
         "elems_only": dict(elems=["e", "H", "C", "N", "O", "S"], pseudoRaw=[], grain="GRAIN", surf="#", repl={}),
+        # the default lists after remove_known_elements(["D", "Si"]) and remove_known_pseudoelements(["o"]) -- reached by a SEQUENCE of calls
+        # (configure, parse something, remove, parse the name), see observe()
+        "default_removed": dict(elems=[x for x in de if x not in ("D", "Si")], pseudoRaw=[x for x in dp if x != "o"], grain="GRAIN", surf="#", repl={},
+                                reached_from=dict(elems=de, pseudoRaw=dp, rm_e=["D", "Si"], rm_p=["o"])),
     }
     for t in T.values():
         t["pseudo"] = [re.sub(r"\\(.)", r"\1", p) for p in t["pseudoRaw"]]
@@ -50,6 +54,7 @@ def mk_tables():
 
 
 def tla_table(t):
+    t = {k2: v2 for k2, v2 in t.items() if k2 != "reached_from"}
     return {"elems": [chars(x) for x in t["elems"]], "pseudo": [chars(x) for x in t["pseudo"]],
             "pseudoRaw": [chars(x) for x in t["pseudoRaw"]], "grain": chars(t["grain"]), "surf": chars(t["surf"]),
             "repl": [[chars(a), chars(b)] for a, b in t["repl"].items()]}
@@ -73,8 +78,19 @@ def mass_table():
 
 def observe(t, name: str, toks):
     from naunet.species import Species
-    Species.set_known_elements(list(t["elems"]))
-    Species.set_known_pseudoelements(list(t["pseudoRaw"]))
+    if t.get("reached_from"):
+        rf = t["reached_from"]
+        Species.set_known_elements(list(rf["elems"]))
+        Species.set_known_pseudoelements(list(rf["pseudoRaw"]))
+        try:
+            Species("H2O", grain_symbol=t["grain"], surface_prefix=t["surf"])      # (something is parsed before the lists shrink)
+        except Exception:   # noqa
+            pass
+        Species.remove_known_elements(list(rf["rm_e"]))
+        Species.remove_known_pseudoelements(list(rf["rm_p"]))
+    else:
+        Species.set_known_elements(list(t["elems"]))
+        Species.set_known_pseudoelements(list(t["pseudoRaw"]))
     Species._replacement = dict(t["repl"])
     o = {"ok": True, "counts": [], "surface": False, "sgroup": -1, "grain": False, "ggroup": -1, "charge": 0, "is_atom": False,
          "massnumber": 0, "gas_is_body": True, "err": ""}
@@ -198,6 +214,14 @@ def main(ctx: Ctx) -> int:
             allsyms = T[table]["elems"] + T[table]["pseudo"] + [T[table]["grain"], T[table]["surf"]]
             if not any(bad in s for s in allsyms):
                 add(table, nm[:pos] + bad + nm[pos:] + ch, [], garbage=True, origin="garbage")
+    # after symbols were REMOVED from the configured lists, names that use them are refused (and the others parse as before)
+    for nm in ("HD+", "SiO", "oH2", "D2", "SiH4", "#HDO", "H2O", "CO", "pH2", "HCO+", "Si", "D"):
+        add("default_removed", nm, [], origin="after removal")
+    # names that begin with digits belonging to no configured symbol (an isotope that is not in the element list, a stray multiplicity)
+    for nm in ("13CO", "15NH3", "18OH-", "2H", "3He+", "1GRAIN-", "13C", "12CH4", "17O"):
+        add("default", nm, [], origin="leading digits")
+    for nm in ("13CO", "2H", "3HE+", "12CH4"):
+        add("upper", nm, [], origin="leading digits")
     # species names of bundled networks (free-form)
     names = set()
     for fn in ("rate12.umist", "minimal.kida", "duplicate.kida"):
